@@ -150,4 +150,56 @@ theorem binOf_le_iff (coords : List Rat) (v : Rat) (hs : Sorted coords) (hne : c
         · intro _; grind
         · intro _; omega
 
+/-! ### ray casting on the edges of an index-space box -/
+
+theorem mul_neg_iff_of_pos_right {a c : Rat} (hc : 0 < c) : a * c < 0 ↔ a < 0 := by
+  have := Rat.mul_lt_mul_right (a := a) (b := 0) hc
+  simpa using this
+
+theorem add_half_lt_natCast (n i : Nat) : (i : Rat) + 1 / 2 < (n : Rat) ↔ i < n := by
+  rw [← add_half_le_natCast]
+  constructor
+  · intro h; exact Rat.le_of_lt h
+  · intro h
+    have hne : ¬ ((n : Rat) ≤ (i : Rat) + 1 / 2) := by
+      rw [natCast_le_add_half]; have := (add_half_le_natCast n i).mp h; omega
+    exact Rat.not_le.mp hne
+
+theorem add_half_ne_natCast (n i : Nat) : (i : Rat) + 1 / 2 ≠ (n : Rat) := by
+  intro h
+  have h1 : (i : Rat) + 1 / 2 ≤ (n : Rat) := by rw [h]; exact Rat.le_refl
+  have h2 : (n : Rat) ≤ (i : Rat) + 1 / 2 := by rw [h]; exact Rat.le_refl
+  have := (add_half_le_natCast n i).mp h1
+  have := (natCast_le_add_half n i).mp h2
+  omega
+
+theorem crosses_horizontal (c : IPt) (x x' y : Rat) : crosses c ((x, y), (x', y)) = false := by
+  simp [crosses]
+
+theorem crosses_vertical_up (cx cy x y0 y1 : Rat) (h : y0 < y1) :
+    crosses (cx, cy) ((x, y0), (x, y1)) = ((decide (y0 ≤ cy) != decide (y1 ≤ cy)) && decide (cx < x)) := by
+  simp only [crosses, h, if_true]
+  congr 1
+  have hpos : 0 < y1 - y0 := by grind
+  have : (x - x) * (cy - y0) = 0 := by grind
+  rw [this]
+  have := mul_neg_iff_of_pos_right (a := cx - x) hpos
+  simp only [gt_iff_lt, decide_eq_decide]
+  rw [this]; constructor <;> intro h <;> grind
+
+theorem crosses_vertical_down (cx cy x y0 y1 : Rat) (h : y0 < y1) :
+    crosses (cx, cy) ((x, y1), (x, y0)) = ((decide (y1 ≤ cy) != decide (y0 ≤ cy)) && decide (cx < x)) := by
+  have hn : ¬ y1 < y0 := by grind
+  simp only [crosses, hn, if_false]
+  congr 1
+  have hpos : 0 < y1 - y0 := by grind
+  have h0 : (x - x) * (cy - y1) = 0 := by grind
+  rw [h0]
+  have h2 : (cx - x) * (y0 - y1) = -((cx - x) * (y1 - y0)) := by grind
+  rw [h2]
+  have := mul_neg_iff_of_pos_right (a := cx - x) hpos
+  simp only [decide_eq_decide]
+  constructor <;> intro h <;> grind
+
+
 end SE.Raster
